@@ -244,22 +244,22 @@ def c08(tapes, params):
         ctx = a.context()
         atk_tags = [t for t in tags if t.sid != victim_sid]
         if k == 'register':
-            return rc.register(ctx), 'register'
+            return rc.register(ctx), 'register', []
         if k == 'list':
-            return rc.list_cmd(g.choice([rc.LIST_SERVICES, rc.LIST_IDENTITY, rc.LIST_INTERFACES], 'lc'), ctx), 'list'
+            return rc.list_cmd(g.choice([rc.LIST_SERVICES, rc.LIST_IDENTITY, rc.LIST_INTERFACES], 'lc'), ctx), 'list', []
         if k == 'fwdopen':
-            return rc.send_rr(a.session, rc.req_forward_open(0x300 + a.index, large=bool(g.draw(2, 'lg'))), ctx), 'fwdopen'
+            return rc.send_rr(a.session, rc.req_forward_open(0x300 + a.index, large=bool(g.draw(2, 'lg'))), ctx), 'fwdopen', []
         if k == 'unit':
             op = gen_op(g, w.model, unique, fit=True, tag=g.choice(atk_tags, 'atag'))
-            return rc.send_unit(a.session, 0x20000002, 1, op_request(op), ctx), 'unit ' + op['kind']
+            return rc.send_unit(a.session, 0x20000002, 1, op_request(op), ctx), 'unit ' + op['kind'], [op]
         if k == 'bundle':
             ops = [gen_op(g, w.model, unique, fit=True, tag=g.choice(atk_tags, 'atag'),
                           kinds=['read', 'write', 'writefrag', 'readfrag', 'sas']) for _ in range(g.between(1, 4, 'nb'))]
-            return rc.send_rr(a.session, a.wrap(rc.req_multiple([op_request(o) for o in ops]), 'none'), ctx), 'bundle'
+            return rc.send_rr(a.session, a.wrap(rc.req_multiple([op_request(o) for o in ops]), 'none'), ctx), 'bundle', ops
         op = gen_op(g, w.model, unique, fit=True, tag=g.choice(atk_tags, 'atag'))
         cip = op_request(op)
         route = 'none' if cip[:1] == b'\x52' else g.choice(['none', 'bare', [('port', 1, 0)]], 'route')
-        return rc.send_rr(a.session, a.wrap(cip, route), ctx), 'op ' + op['kind']
+        return rc.send_rr(a.session, a.wrap(cip, route), ctx), 'op ' + op['kind'], [op]
 
     def frame_writes(f):
         """The structured write ops spelled by one complete frame (lenient decode); [] if none."""
@@ -269,13 +269,11 @@ def c08(tapes, params):
             body = lenient_item1(f.data)
             if body is None:
                 return []
-            if f.command == rc.SEND_UNIT:
-                body = body[2:]
             return op_from_decoded(rc.dec_request(body))
         except (rc.DecodeError, struct.error, IndexError, KeyError, ValueError, UnicodeError):
             return []
 
-    def explain(frames, real_differs):
+    def explain(frames, real_differs, extra=()):
         """Some subset (in order) of the write requests spelled by the newly completed frames
         (a bundle counts member by member), executed with the model's semantics, must produce the
         observed state.  Returns True and leaves the model there."""
@@ -283,6 +281,11 @@ def c08(tapes, params):
         ops = []
         for f in frames:
             ops += frame_writes(f)
+        # the writes the frame spelled before it was mutated: a mutation in a field the simulator
+        # tolerates (a size, pad or reserved field) leaves them in force
+        for o in extra:
+            if o not in ops:
+                ops.append(o)
         if not ops:
             return False
         if len(ops) <= 10:
@@ -313,7 +316,8 @@ def c08(tapes, params):
                 a.connect()
                 if g.chance(3, 4, 'rereg'):
                     a.register()
-            raw, what = valid_frame(a)
+            raw, what, orig_ops = valid_frame(a)
+            orig_writes = [o for o in orig_ops if o['kind'] in ('write', 'writefrag', 'sas')]
             if g.chance(1, 6, 'asis'):
                 data, how = raw, 'unmutated'
             else:
@@ -380,7 +384,7 @@ def c08(tapes, params):
             differs = lambda: [x for x in w.state_diff() if x[0] != victim_sid]
             d = differs()
             if d:
-                if not explain(newframes[:6], differs):
+                if not explain(newframes[:6], differs, orig_writes):
                     w.violation('c08-unexplained-change', 'after %s mutated by %s (%s): tags changed %r but the delivered bytes hold no '
                                 'complete well-formed write with that effect' % (what, how, data.hex(), d[:3]),
                                 mutation=how.split(' ')[0])
@@ -414,13 +418,18 @@ def lenient_item1(data):
         return None
     off = 8
     t0, l0 = struct.unpack_from('<HH', data, off)
-    if off + 4 + l0 + 4 > len(data):
-        l0 = 4 if t0 == 0x00A1 else 0       # inconsistent length: the item type's own size
+    if t0 == 0x00A1:
+        l0 = 4                              # the item type's own size, whatever the length field says
+    elif t0 == 0x0000 or off + 4 + l0 + 4 > len(data):
+        l0 = 0
     off += 4 + l0
     if off + 4 > len(data):
         return None
-    l1 = struct.unpack_from('<H', data, off + 2)[0]
-    return bytes(data[off + 4:off + 4 + l1])
+    t1, l1 = struct.unpack_from('<HH', data, off)
+    body = bytes(data[off + 4:off + 4 + l1])
+    if t1 == 0x00B1:
+        body = body[2:]         # connected data item: sequence count first
+    return body
 
 
 def merge_victim(cur, old, victim_sid):
